@@ -2,7 +2,8 @@
 //! written by `write_into` (C03), the same lines through a layout grammar (blank lines, leading
 //! spaces, comment lines, missing final newline after a comment), keywords around the 8-byte SWAR
 //! boundary, mutations, arbitrary bytes, extreme numerals, truncations (C01, C05, C06),
-//! single-token corruptions with known position (C08), faults (C04), line sources (C09).
+//! single-token corruptions with known position (C08), faults (C04), line sources (C09);
+//! `scale`: every size-like dimension of the input taken beyond 2^20 (see below).
 use crate::common::*;
 use crate::eng_btor2::{join_obs, write_lines, Case, OConst, OLine, OVariant};
 use flussab_btor2::btor2::*;
@@ -586,27 +587,26 @@ pub fn validators_exhaustive() -> Vec<String> {
 
 use std::sync::atomic::{AtomicUsize, Ordering};
 
-/// Longest whitespace run that still goes through the Lean model: `Btor2.skipWsLoop` costs
-/// O(run length²) (16 Ki = 0.6 s, 32 Ki = 2.2 s, 64 Ki = 9 s); longer runs are `big=1` cases
-/// (implementation-side oracles only, incl. the exact error location).  The quick tier uses a
-/// quarter of it (8 Ki = 0.15 s per case).  Raise to `1 << 21` once the model loop is linear.
-pub const MODEL_WS_CAP: usize = (1 << 15) + 64;
-/// Most lines of one document that still go through the model (the per-line fuel computation
-/// `rest.length` makes it O(lines × bytes): 8192 short lines = 1 s, 16384 = 4 s).
-pub const MODEL_LINES_CAP: usize = (1 << 13) + 64;
+/// Longest whitespace run that still goes through the Lean model (linear since the model got
+/// `csimp` twins of its loops: 2^20 blanks = 0.2 s); longer runs would be `big=1` cases
+/// (implementation-side oracles only, incl. the exact error location).
+pub const MODEL_WS_CAP: usize = (1 << 21) + 64;
+/// Most lines of one document that still go through the model (100k lines = 1.7 s, 300k = 5.7 s,
+/// 1.2M = 22 s); documents with more lines are `big=1`.
+pub const MODEL_LINES_CAP: usize = 300_000;
 
-fn ws_cap(thorough: bool) -> usize {
-    if thorough { MODEL_WS_CAP } else { MODEL_WS_CAP / 4 }
+fn ws_cap(_thorough: bool) -> usize {
+    MODEL_WS_CAP
 }
 
-fn lines_cap(thorough: bool) -> usize {
-    if thorough { MODEL_LINES_CAP } else { MODEL_LINES_CAP / 4 }
+fn lines_cap(_thorough: bool) -> usize {
+    MODEL_LINES_CAP
 }
 
 /// Upper bound (as a power of two) of the generic sizes of the dimensions that run through the
 /// model: the thorough tier (`hi_k` = 21) uses the whole range.
 fn gen_k(hi_k: u32) -> u32 {
-    if hi_k > 20 { hi_k } else { 16 }
+    if hi_k > 20 { hi_k } else { 17 }
 }
 
 static SCALE_IDX: AtomicUsize = AtomicUsize::new(0);
@@ -1013,11 +1013,10 @@ fn ws_run(rng: &mut Rng, d: &mut Doc, n: usize, shape: u64) {
 }
 
 fn sc_ws(rng: &mut Rng, j: usize, hi_k: u32, thorough: bool, dim: &str) -> String {
-    // runs beyond the model's reach cost implementation time only: full range in both tiers, for
-    // half of the cases; the other half stays within the model's reach
+    // a run is cheap on both sides (0.25 s per MiB): full range in both tiers for half of the
+    // cases, the other half at or below 16 Ki
     let cap = ws_cap(thorough);
-    let in_model_k = (usize::BITS - 1 - cap.leading_zeros()).max(11);
-    let n = pool(10, hi_k, if rng.chance(1, 2) { hi_k } else { in_model_k.min(hi_k) }).pick(rng, j);
+    let n = pool(10, hi_k, if rng.chance(1, 2) { hi_k } else { 14 }).pick(rng, j);
     let mut big = n > cap;
     let mut d = Doc::new();
     if rng.chance(1, 2) {
@@ -1465,8 +1464,18 @@ fn add_bulk(rng: &mut Rng, d: &mut Doc, n: usize, kind: u64, thorough: bool) -> 
     }
 }
 
+/// Size of a `fault` / `ls` document: every fifth one is beyond 1 MiB (stream positions, not only
+/// lengths, are what these two dimensions scale).
+fn stream_size(rng: &mut Rng, j: usize, hi_k: u32) -> usize {
+    if j % 5 == 0 && j > 0 {
+        (1usize << 20) + rng.below(1 << (hi_k - 1)) as usize
+    } else {
+        pool(16, hi_k, if hi_k > 20 { hi_k } else { 18 }).pick(rng, j)
+    }
+}
+
 fn sc_fault(rng: &mut Rng, j: usize, hi_k: u32, thorough: bool) -> String {
-    let n = pool(16, hi_k, if hi_k > 20 { hi_k } else { 18 }).pick(rng, j);
+    let n = stream_size(rng, j, hi_k);
     let mut d = Doc::new();
     let k = rng.below(3);
     d.text(&small_lines(rng, k));
@@ -1491,7 +1500,7 @@ fn sc_fault(rng: &mut Rng, j: usize, hi_k: u32, thorough: bool) -> String {
 }
 
 fn sc_ls(rng: &mut Rng, j: usize, hi_k: u32, thorough: bool) -> String {
-    let n = pool(16, hi_k, if hi_k > 20 { hi_k } else { 18 }).pick(rng, j);
+    let n = stream_size(rng, j, hi_k);
     let mut d = Doc::new();
     let k = rng.below(3);
     d.text(&small_lines(rng, k));
